@@ -1,11 +1,12 @@
 /-
 C02 — property theorems (statements, short proofs from the lemmas, non-vacuity examples).
-Helper lemmas: Proofs.lean (decision logic), History.lean (conservation, cool-off bookkeeping = history).
+Helper lemmas: Proofs.lean (decision logic), History.lean (conservation, cool-off bookkeeping = history),
+RWRefine.lean (ring of buckets = event log), Capacity.lean (model capacity = history capacity).
 
 "capacity estimate" = `Shedder.maxFlight` = max(1, peak per-bucket pass count × min rounded per-bucket average
 latency × windowScale) over the sliding window with the current bucket ignored.
 -/
-import GoZero.C02.History
+import GoZero.C02.Capacity
 namespace GoZero.C02
 
 /-- **Sheds only when hot and busy.**  For every shedder state, time, checker verdict and CPU reading:
@@ -109,6 +110,119 @@ theorem shed_only_if_history_hot (st : St) (h : Spec.Hist) (r : Ref st h) (cpuOv
   rw [r.fly]
   exact ⟨hd.1, hs.2.1⟩
 
+/-! ### the property on the externally visible history
+
+`Spec.Hist` summarises a history by what an outside observer sees: how many promises were handed out and
+resolved, the log of Pass events (time, latency), the time of the latest Allow that saw the CPU over the
+threshold, whether shedding is in progress.  `Spec.capacity` computes the capacity estimate from the Pass log
+alone: over the `buckets − 1` buckets of `window / buckets` ns before the current one (aligned at the
+creation time), max(1, peak per-bucket pass count × minimum rounded per-bucket average latency × scale). -/
+
+/-- a run of the model with the history summary kept alongside. -/
+def runH (st : St) (h : Spec.Hist) : List Op → St × Spec.Hist
+  | [] => (st, h)
+  | op :: ops => runH (step st op).1 (h.observe (evOf st op)) ops
+
+theorem runH_inv (wc : Spec.WinCfg) (ops : List Op) (st : St) (h : Spec.Hist) (r : Ref st h) (w : WRef wc st h) :
+    Ref (runH st h ops).1 (runH st h ops).2 ∧ WRef wc (runH st h ops).1 (runH st h ops).2 := by
+  induction ops generalizing st h with
+  | nil => exact ⟨r, w⟩
+  | cons op ops ih => exact ih _ _ (ref_step st h r op) (wref_step wc st h w op)
+
+/-- **The rolling windows are the sliding window over the Pass log**: after every history (any time gaps:
+inside a bucket, across bucket boundaries, beyond the whole window), the model's capacity estimate equals the
+one computed from the log of Pass events. -/
+theorem capacity_is_sliding_window_estimate (window buckets : Nat) (threshold : Int) (t0 : Nat)
+    (hb : 1 ≤ buckets) (hw : 1 ≤ window / buckets) (ht : 0 < t0) (ops : List Op) :
+    let sh0 := Shedder.new window buckets threshold t0
+    let wc : Spec.WinCfg := ⟨buckets, window / buckets, t0, sh0.windowScale⟩
+    let r := runH ⟨t0, sh0⟩ { now := t0 } ops
+    r.1.sh.maxFlight r.1.now = Spec.capacity wc r.2.passes r.2.now := by
+  intro sh0 wc r
+  have r0 : Ref ⟨t0, sh0⟩ { now := t0 } := ref_init window buckets threshold t0 ht
+  have := runH_inv wc ops _ _ r0 (wref_init window buckets threshold t0 hb hw)
+  exact capacity_eq wc _ _ this.2
+
+/-- both directions for a model state that represents a history (`Ref`, `WRef`). -/
+theorem allow_meets_spec_of_ref (wc : Spec.WinCfg) (st : St) (h : Spec.Hist) (r : Ref st h) (w : WRef wc st h)
+    (cpuOver : Bool) (cpu : Int) :
+    ((st.sh.allow st.now cpuOver cpu).2 = .overloaded → Spec.ShedJustified wc h cpuOver)
+    ∧ (Spec.MustShed wc h cpuOver → (st.sh.allow st.now cpuOver cpu).2 = .overloaded) := by
+  have hcap := capacity_eq wc st h w
+  constructor
+  · intro hv
+    have := shed_only_if_history_hot st h r cpuOver cpu hv
+    unfold Spec.ShedJustified
+    rw [← hcap]
+    exact this
+  · intro hm
+    unfold Spec.MustShed at hm
+    obtain ⟨ho, hf, ha⟩ := hm
+    subst ho
+    rw [← hcap, r.fly] at hf
+    rw [← hcap, r.avg] at ha
+    exact sheds_when_over_capacity st.sh st.now cpu hf ha
+
+theorem monitor_sound_of_ref (wc : Spec.WinCfg) (st : St) (h : Spec.Hist) (r : Ref st h) (w : WRef wc st h)
+    (cpuOver : Bool) (cpu : Int) :
+    Spec.checkAllow wc h cpuOver (st.sh.allow st.now cpuOver cpu).2 = none := by
+  have hs := allow_meets_spec_of_ref wc st h r w cpuOver cpu
+  unfold Spec.checkAllow
+  cases hv : (st.sh.allow st.now cpuOver cpu).2 with
+  | overloaded =>
+    have hj := hs.1 hv
+    unfold Spec.ShedJustified at hj
+    have h1 : (cpuOver || h.hot) = true := by
+      rcases hj.1 with h' | h' <;> simp [h']
+    have hfl : 1 ≤ h.inFlight := by
+      have := (shed_only_if_hot_and_busy st.sh st.now cpuOver cpu hv).2.2.2
+      rw [r.fly]; exact this
+    have h2 : ¬ h.inFlight ≤ 0 := by omega
+    have h3 : decide (10 * (h.inFlight : Rat) > Spec.capacity wc h.passes h.now) = true := by
+      simpa using hj.2
+    simp [h1, h2, h3]
+  | admitted =>
+    simp only []
+    split
+    · rename_i hc
+      simp only [Bool.and_eq_true, decide_eq_true_eq, Bool.not_eq_true'] at hc
+      have := hs.2 ⟨hc.1.1.1.1, hc.1.1.1.2, hc.1.1.2⟩
+      rw [hv] at this
+      cases this
+    · rfl
+
+/-- **C02 on histories (both directions).**  For every configuration (window, buckets ≥ 1, bucket duration ≥ 1 ns,
+threshold), every history of Allow / Pass / Fail events with arbitrary time gaps and latencies and every CPU
+trace, the next `Allow`:
+* returns ErrServiceOverloaded only if `Spec.ShedJustified`: the CPU verdict is "over" now — or an Allow less
+  than a second ago saw it over while shedding was in progress — and the number of admitted-but-unresolved
+  requests exceeds 10 % of the capacity estimate of the sliding window over the Pass log;
+* does return it if `Spec.MustShed`: CPU over, and in-flight count and its moving average above the estimate. -/
+theorem allow_meets_spec (window buckets : Nat) (threshold : Int) (t0 : Nat)
+    (hb : 1 ≤ buckets) (hw : 1 ≤ window / buckets) (ht : 0 < t0) (ops : List Op) (cpuOver : Bool) (cpu : Int) :
+    let sh0 := Shedder.new window buckets threshold t0
+    let wc : Spec.WinCfg := ⟨buckets, window / buckets, t0, sh0.windowScale⟩
+    let r := runH ⟨t0, sh0⟩ { now := t0 } ops
+    ((r.1.sh.allow r.1.now cpuOver cpu).2 = .overloaded → Spec.ShedJustified wc r.2 cpuOver)
+    ∧ (Spec.MustShed wc r.2 cpuOver → (r.1.sh.allow r.1.now cpuOver cpu).2 = .overloaded) := by
+  intro sh0 wc r
+  have inv := runH_inv wc ops _ _ (ref_init window buckets threshold t0 ht)
+    (wref_init window buckets threshold t0 hb hw)
+  exact allow_meets_spec_of_ref wc _ _ inv.1 inv.2 cpuOver cpu
+
+/-- the exact clauses imply the tolerant executable monitor: on a history produced by the model the monitor
+`Spec.checkAllow` (what the driver evaluates on the implementation's trace) never fires. -/
+theorem monitor_sound (window buckets : Nat) (threshold : Int) (t0 : Nat)
+    (hb : 1 ≤ buckets) (hw : 1 ≤ window / buckets) (ht : 0 < t0) (ops : List Op) (cpuOver : Bool) (cpu : Int) :
+    let sh0 := Shedder.new window buckets threshold t0
+    let wc : Spec.WinCfg := ⟨buckets, window / buckets, t0, sh0.windowScale⟩
+    let r := runH ⟨t0, sh0⟩ { now := t0 } ops
+    Spec.checkAllow wc r.2 cpuOver (r.1.sh.allow r.1.now cpuOver cpu).2 = none := by
+  intro sh0 wc r
+  have inv := runH_inv wc ops _ _ (ref_init window buckets threshold t0 ht)
+    (wref_init window buckets threshold t0 hb hw)
+  exact monitor_sound_of_ref wc _ _ inv.1 inv.2 cpuOver cpu
+
 /-- **A disabled shedder never sheds** (`NewAdaptiveShedder` returns the nop shedder when disabled). -/
 theorem disabled_never_sheds : nopAllow = Verdict.admitted := rfl
 
@@ -132,6 +246,19 @@ example : ((exShedder 11 11 7 true).allow (7 + 1000000000) false 0).2 = .admitte
 example : (hrun (HSt.init ⟨1, Shedder.new 1000000000 10 900 1⟩)
     [.allow false 0, .allow true 950, .advance 3000000, .pass 0]).map (fun h => (h.st.sh.flying, h.outstanding))
     = some (1, [(1, 1)]) := by decide +kernel
+-- a history across a bucket boundary: 30 requests of 20 ms pass inside the first 100 ms bucket; in the next
+-- bucket the capacity estimate is 30 × 20 ms × (1/100) = 6, in the model and from the Pass log alike;
+-- eleven buckets later the window has slid past them and the estimate is back to 10 (1 × 1000 ms × 1/100)
+def exOps : List Op :=
+  List.replicate 30 (.allow false 0) ++ [.advance 20000000] ++ List.replicate 30 (.pass 1) ++ [.advance 100000000]
+example :
+    let r := runH ⟨1, Shedder.new 1000000000 10 900 1⟩ { now := 1 } exOps
+    (r.1.sh.maxFlight r.1.now, Spec.capacity ⟨10, 100000000, 1, 1 / 100⟩ r.2.passes r.2.now, r.2.inFlight) = (6, 6, 0) := by
+  decide +kernel
+example :
+    let r := runH ⟨1, Shedder.new 1000000000 10 900 1⟩ { now := 1 } (exOps ++ [.advance 1000000000])
+    (r.1.sh.maxFlight r.1.now, Spec.capacity ⟨10, 100000000, 1, 1 / 100⟩ r.2.passes r.2.now) = (10, 10) := by
+  decide +kernel
 -- resolving a promise twice is not a well-formed history
 example : (hrun (HSt.init ⟨1, Shedder.new 1000000000 10 900 1⟩) [.allow false 0, .pass 0, .fail 0]).isNone := by
   decide +kernel
